@@ -3,13 +3,18 @@ import HgVerif.Driver.Proto
 /-!
 Model driver for the direct interning stream of C06: same line protocol as `harness/drv_intern.cpp`.
 
-Every declaration is one `HgVerif.InternKey.step` (`Model/InternKey.lean`): the input labels are resolved
+Every declaration is one `HgVerif.InternKey.stepS` (`Model/InternKey.lean`): the input labels are resolved
 to the nodes they were interned to, and `HgVerif.Intern.addNode` (`Model/Intern.lean`) is asked for the
-key `(defn, resolved inputs)`.  The concrete key mirrors `InstanceKey` of `graph_wiring.cpp` for the
-programs of this protocol:
+key `((defn, schema), resolved inputs)`.  The concrete key mirrors `InstanceKey` of `graph_wiring.cpp` for
+the programs of this protocol:
 
-* `defn = (definition, scalar)` — `InstanceKey::def` and `InstanceKey::scalars` (one `Int` scalar; the
-  resolved `WiringNodeSchema` is a function of the definition here, every node being concrete),
+* `defn = (definition, scalar)` — `InstanceKey::def` and `InstanceKey::scalars` (one scalar, `Int` except for `gs:f`, whose
+  `Float` scalar is told apart from the `Int` of `gs:i` by the resolved scalar SCHEMA `k:float` / `k:int`); the typed
+  call `q:<t>` and the by-name call `qn:<t>` reach `add_node` with the same definition (`typeid(Quote)`),
+* `schema` — `InstanceKey::schema`, the resolved `WiringNodeSchema` (`schemaOf`): for the concrete definitions a
+  function of the definition; for `ec` / `r` the input (and output) schema follows the port type; for `q` / `qn`
+  the OUTPUT schema is the requested type and nothing else in the key depends on it.  A declaration takes part
+  in interning iff `schema.output` is present (`SDecl.interns`),
 * one entry per peered source of the inputs, in slot order, `(producer node, Att)`:
   * producer node — `SourceKey::peered_node`, the node the producer declaration was interned to,
   * `Att.slot`    — `InputKey::target_path = {slot}`,
@@ -33,15 +38,39 @@ structure Att where
   deriving DecidableEq
 
 abbrev Defn := String × Nat
-abbrev D := LDecl String Defn Att
+abbrev D := SDecl String Defn String Att
 
 inductive Ty where
-  | ts | tsl | tsb | tsErr
+  | ts | tsl | tsb | tsErr | tsF | tsB
   deriving DecidableEq
+
+/-- a recorded / computed value of the one simulation cycle: `h n` is the float `n + 0.5` -/
+inductive Val where
+  | i (n : Nat) | h (n : Nat) | b (v : Bool)
+
+def Val.str : Val → String
+  | .i n => toString n
+  | .h n => s!"{n}.5"
+  | .b v => if v then "true" else "false"
+
+def Val.nat : Val → Nat
+  | .i n => n
+  | .h n => n
+  | .b _ => 0
+
+def tyName : Ty → String
+  | .ts => "TS[int]" | .tsErr => "TS[int]" | .tsF => "TS[float]" | .tsB => "TS[bool]"
+  | .tsl => "TSL[TS[int],2]" | .tsb => "TSB[a:TS[int],b:TS[int]]"
+
+def tyCode : Ty → String
+  | .ts => "i" | .tsErr => "i" | .tsF => "f" | .tsB => "b" | .tsl => "l" | .tsb => "s"
 
 structure DS where
   live : Bool := true                                   -- false once `finish` consumed the wiring
-  ls : LSt String Defn Att := {}                        -- interning table + label ↦ node
+  ls : LSt String (Defn × Schema String) Att := {}      -- interning table + label ↦ node
+  vals : List (String × Option Val) := []               -- what a label's declaration computes in the one cycle
+  recs : List (String × Option Val) := []               -- recorder label, what it saw
+  rankFree : Bool := false                              -- a rank-free input was declared: `run` is refused
   tys : List (String × Ty) := []                        -- type of the port a label denotes
   used : List String := []                              -- every label declared so far
   insts : List (Nat × String × List (Nat × Att)) := []  -- created instances: id, first label, resolved inputs
@@ -65,7 +94,7 @@ structure Elem where
 
 /-- `<lbl>` | `<lbl>.<0|1>` | `<lbl>!`  →  the source and the type of the port -/
 def parseElem (d : DS) (cs : List Char) : Option (Elem × Ty) :=
-  let whole := (tyOf d (String.ofList cs)).map fun ty => (⟨String.ofList cs, [], false⟩, if ty = .tsErr then .ts else ty)
+  let whole := (tyOf d (String.ofList cs)).map fun ty => (⟨String.ofList cs, [], false⟩, if ty = .tsErr then Ty.ts else ty)
   match cs.reverse with
   | '!' :: r =>
     let l := String.ofList r.reverse
@@ -89,13 +118,14 @@ structure Inp where
   rank : Bool
   okTsl : Bool             -- acceptable for a `TSL<TS<Int>,2>` input
   okTs : Bool              -- acceptable for a `TS<Int>` input
+  ty : Ty                  -- type of the port (of the whole structural source: `tsl`)
 
 /-- `[~][^]<body>` -/
 def parseInput (d : DS) (t : String) : Option Inp :=
   let cs := t.toList
   let (passive, cs) := match cs with | '~' :: r => (true, r) | _ => (false, cs)
   let (free, cs) := match cs with | '^' :: r => (true, r) | _ => (false, cs)
-  let single := (parseElem d cs).map fun (e, ty) => (⟨[e], false, passive, !free, ty = .tsl, ty = .ts⟩ : Inp)
+  let single := (parseElem d cs).map fun (e, ty) => (⟨[e], false, passive, !free, ty = .tsl, ty = .ts, ty⟩ : Inp)
   match cs with
   | '[' :: rest =>
     if !rest.isEmpty && rest.getLast? = some ']' then
@@ -103,7 +133,7 @@ def parseInput (d : DS) (t : String) : Option Inp :=
       match (String.ofList rest.dropLast).splitOn "," with
       | [a, b] =>
         match parseElem d a.toList, parseElem d b.toList with
-        | some (ea, .ts), some (eb, .ts) => some ⟨[ea, eb], true, false, !free, true, false⟩
+        | some (ea, .ts), some (eb, .ts) => some ⟨[ea, eb], true, false, !free, true, false, .tsl⟩
         | _, _ => none
       | _ => none
     else single
@@ -114,30 +144,90 @@ def entries (slot : Nat) (i : Inp) : List (String × Att) :=
   (i.elems.zipIdx).map fun (e, j) =>
     (e.lbl, ⟨slot, if i.structural then some j else none, e.path, e.err, i.passive, i.rank⟩)
 
-/-- arity and whether the (single) input is a `TSL`; `none` for an unknown definition -/
-def defInfo (sink : Bool) (defn : String) : Option (Nat × Bool) :=
+structure DefInfo where
+  arity : Nat
+  wantsTsl : Bool := false          -- the (single) input is a `TSL`
+  anyTs : Bool := false             -- generic input: a TS<Int> / TS<Float> / TS<Bool> port
+  generic : Bool := false           -- no explicit-`WiringInputRef` form: `^` is rejected
+  name : String                     -- the definition as `InstanceKey::def` sees it
+  req : Option Ty := none           -- requested output type (output-only type variable)
+  scalarTy : String := "int"        -- resolved type of the scalar `k` (`gs:<t>`: the type of the scalar value)
+
+def reqTy : String → Option Ty
+  | "i" => some .ts | "f" => some .tsF | "b" => some .tsB | _ => none
+
+/-- `none` for an unknown definition -/
+def defInfo (sink : Bool) (defn : String) : Option DefInfo :=
   match sink, defn with
-  | false, "f1" => some (1, false)
-  | false, "g1" => some (1, false)
-  | false, "f2" => some (2, false)
-  | false, "g2" => some (2, false)
-  | false, "t1" => some (1, true)
-  | true, "k0" => some (0, false)   -- output-less node without time-series inputs
-  | true, "k1" => some (1, false)
-  | true, "k2" => some (2, false)
+  | false, "f1" => some { arity := 1, name := "f1" }
+  | false, "g1" => some { arity := 1, name := "g1" }
+  | false, "f2" => some { arity := 2, name := "f2" }
+  | false, "g2" => some { arity := 2, name := "g2" }
+  | false, "t1" => some { arity := 1, wantsTsl := true, name := "t1" }
+  | false, "ec" => some { arity := 1, anyTs := true, generic := true, name := "ec" }
+  | true, "k0" => some { arity := 0, name := "k0" }   -- output-less node without time-series inputs
+  | true, "k1" => some { arity := 1, name := "k1" }
+  | true, "k2" => some { arity := 2, name := "k2" }
+  | true, "r" => some { arity := 1, anyTs := true, generic := true, name := "r" }
+  | false, _ =>
+    -- the typed (`q:<t>`) and the by-name (`qn:<t>`) call of ONE definition
+    match defn.splitOn ":" with
+    | [c, t] => if c = "q" || c = "qn" then (reqTy t).map fun ty => { arity := 1, generic := true, name := "q", req := some ty }
+                else if c = "gs" && (t = "i" || t = "f") then
+                  some { arity := 1, generic := true, name := "gs", scalarTy := if t = "f" then "float" else "int" }
+                else none
+    | _ => none
+  | _, _ => none
+
+/-- the resolved `WiringNodeSchema` of a node / sink declaration (schemas by their printed form) -/
+def schemaOf (sink : Bool) (info : DefInfo) (ins : List Inp) : Schema String :=
+  let input := if ins.isEmpty then none
+    else some (",".intercalate ((ins.zip ["a", "b"]).map fun (i, n) => s!"{n}:{tyName i.ty}"))
+  let output := if sink then none else
+    match info.req with
+    | some t => some (tyName t)
+    | none => if info.anyTs then (ins.head?.map fun i => tyName i.ty) else some "TS[int]"
+  { input := input, output := output,
+    scalar := some (if info.name = "r" then "k:int,id:int" else "k:" ++ info.scalarTy) }
+
+def srcSchema (kind : String) (ty : Ty) : Schema String :=
+  if kind = "e" then { output := some (tyName ty), errorOutput := some "TS[int]" }   -- native builder: no scalar schema
+  else { output := some (tyName ty), scalar := some "k:int" }
+
+/-- what the port a label denotes carried in the one cycle (`none`: it never ticked) -/
+def valOf (d : DS) (l : String) : Option Val := ((d.vals.find? (·.1 = l)).map (·.2)).join
+
+def elemVal (d : DS) (e : Elem) : Option Val := if e.err then none else valOf d e.lbl
+
+/-- a node evaluates in the start cycle iff every input is valid; a structural TSL is valid when a child is -/
+def nodeVal (d : DS) (info : DefInfo) (k : Nat) (ins : List Inp) : Option Val :=
+  if !(ins.all fun i => i.elems.any fun e => (elemVal d e).isSome) then none else
+  let arg (n : Nat) : Val := (((ins[n]?).bind fun i => i.elems.head?).bind (elemVal d)).getD (.i 0)
+  match info.name, info.req with
+  | "f1", _ => some (.i ((arg 0).nat + k))
+  | "g1", _ => some (.i ((arg 0).nat + k))
+  | "f2", _ => some (.i ((arg 0).nat + (arg 1).nat + k))
+  | "g2", _ => some (.i ((arg 0).nat + (arg 1).nat + k))
+  | "t1", _ => some (.i k)
+  | "gs", _ => some (.i ((arg 0).nat + k + (if info.scalarTy = "float" then 1000 else 0)))
+  | "ec", _ => some (arg 0)
+  | "r", _ => some (arg 0)
+  | "q", some .tsF => some (.h ((arg 0).nat + k))
+  | "q", some .tsB => some (.b (((arg 0).nat + k) % 2 == 1))
+  | "q", _ => some (.i (3 * (arg 0).nat + k + 1))
   | _, _ => none
 
 /-- `NodeBuilder::with_passive_inputs`: every input slot would become passive -/
 def allPassive (ins : List Inp) : Bool := !ins.isEmpty && ins.all (·.passive)
 
 /-- dense first-seen number of a value node -/
-def number (d : DS) (id : Nat) : DS × String :=
+def number (d : DS) (id : Nat) (ty : Ty) : DS × String :=
   let i := d.seen.idxOf id
-  if i < d.seen.length then (d, s!"n{i}") else ({ d with seen := d.seen ++ [id] }, s!"n{d.seen.length}")
+  if i < d.seen.length then (d, s!"n{i}:{tyCode ty}") else ({ d with seen := d.seen ++ [id] }, s!"n{d.seen.length}:{tyCode ty}")
 
 /-- one `Wiring::add_node` -/
 def declare (d : DS) (decl : D) : DS × Nat :=
-  let r := step d.ls decl
+  let r := stepS d.ls decl
   let created := r.1.st.next != d.ls.st.next
   ({ d with ls := r.1, used := decl.lbl :: d.used,
             insts := if created then d.insts ++ [(r.2, decl.lbl, resolve d.ls.env decl.ins)] else d.insts }, r.2)
@@ -157,6 +247,11 @@ def finishLine (d : DS) : String :=
   let es := (edgesOf d).mergeSort fun a b => decide (a ≤ b)
   s!"nodes={d.ls.st.next} edges={",".intercalate es}"
 
+def runLine (d : DS) : String :=
+  let rs := (d.recs.map fun (l, v) => l ++ ":" ++ (match v with | some v => v.str | none => "")).mergeSort
+    fun a b => decide (a ≤ b)
+  finishLine d ++ " rec=" ++ ";".intercalate rs
+
 def stepLine (d : DS) (ws : List String) : DS × String :=
   match ws with
   | ["case", n] => ({}, s!"case {n}")
@@ -167,25 +262,35 @@ def stepLine (d : DS) (ws : List String) : DS × String :=
     match ty, toNatStrict k with
     | some ty, some k =>
       if !d.live || !isLabel lbl || d.used.contains lbl then (d, "bad-op") else
-      let (d, id) := declare d { lbl := lbl, defn := ("src-" ++ kind, k), ins := [], sink := false }
-      number { d with tys := (lbl, ty) :: d.tys } id
+      let (d, id) := declare d { lbl := lbl, defn := ("src-" ++ kind, k), schema := srcSchema kind ty, ins := [] }
+      number { d with tys := (lbl, ty) :: d.tys, vals := (lbl, if kind = "e" then none else some (.i k)) :: d.vals } id ty
     | _, _ => (d, "bad-op")
   | op :: lbl :: defn :: k :: ins =>
     if op != "node" && op != "sink" then (d, "bad-op") else
     let sink := op == "sink"
     match defInfo sink defn, toNatStrict k with
-    | some (arity, wantsTsl), some k =>
-      if !d.live || ins.length != arity || !isLabel lbl || d.used.contains lbl then (d, "bad-op") else
+    | some info, some k =>
+      if !d.live || ins.length != info.arity || !isLabel lbl || d.used.contains lbl then (d, "bad-op") else
       let parsed := ins.map (parseInput d)
       if parsed.any (·.isNone) then (d, "bad-op") else
       let parsed := parsed.filterMap id
-      if parsed.any (fun i => if wantsTsl then !i.okTsl else !i.okTs) then (d, "bad-op") else
+      if parsed.any (fun i => if info.wantsTsl then !i.okTsl
+                              else if info.anyTs then i.structural || !(i.ty = .ts || i.ty = .tsF || i.ty = .tsB)
+                              else !i.okTs) then (d, "bad-op") else
+      if info.generic && parsed.any (fun i => !i.rank) then (d, "bad-op") else
       if allPassive parsed then (d, "err") else
       let es := (parsed.zipIdx).flatMap fun (i, slot) => entries slot i
-      let (d, id) := declare d { lbl := lbl, defn := (defn, k), ins := es, sink := sink }
-      if sink then (d, "sink") else number { d with tys := (lbl, .ts) :: d.tys } id
+      let v := nodeVal d info k parsed
+      let (d, id) := declare d { lbl := lbl, defn := (info.name, k), schema := schemaOf sink info parsed, ins := es }
+      let d := { d with rankFree := d.rankFree || parsed.any (fun i => !i.rank) }
+      if sink then ((if info.name = "r" then { d with recs := d.recs ++ [(lbl, v)] } else d), "sink") else
+      let ty : Ty := match info.req with
+        | some t => t
+        | none => if info.anyTs then ((parsed.head?.map (·.ty)).getD .ts) else .ts
+      number { d with tys := (lbl, ty) :: d.tys, vals := (lbl, v) :: d.vals } id ty
     | _, _ => (d, "bad-op")
   | ["finish"] => if !d.live then (d, "bad-op") else ({ d with live := false, tys := [] }, finishLine d)
+  | ["run"] => if !d.live || d.rankFree then (d, "bad-op") else ({ d with live := false, tys := [] }, runLine d)
   | [] => (d, "")
   | _ => (d, "bad-op")
 
